@@ -82,6 +82,67 @@ theorem safeR_get {t : Tree} {i : WinTree.Id} (h : Alive t i) :
   obtain ⟨w, hg, hw, hf⟩ := h.get
   rw [hg]; exact ⟨hw, hf⟩
 
+/-- `x` hangs below the root window through live parents. -/
+inductive Att (t : Tree) : WinTree.Id → Prop where
+  | root : Att t 0
+  | step {x p : WinTree.Id} {w : Win} : t.wins[x]? = some w → w.freed = false → w.parent = some p → Att t p → Att t x
+
+/-- `x` is `a` or lies below it (following `parent`). -/
+inductive Within (t : Tree) (a : WinTree.Id) : WinTree.Id → Prop where
+  | self : Within t a a
+  | step {x p : WinTree.Id} {w : Win} : t.wins[x]? = some w → w.parent = some p → Within t a p → Within t a x
+
+theorem isWithin_sound {t : Tree} {a : WinTree.Id} : ∀ (f : Nat) (x : WinTree.Id), isWithin t f a x = true → Within t a x := by
+  intro f
+  induction f with
+  | zero => intro x h; simp [isWithin] at h
+  | succ f ih =>
+    intro x h
+    unfold isWithin at h
+    by_cases hx : x = a
+    · subst hx; exact Within.self
+    · simp only [hx, if_false] at h
+      cases hw : t.wins[x]? with
+      | none => simp [hw] at h
+      | some w =>
+        simp only [hw] at h
+        cases hp : w.parent with
+        | none => simp [hp] at h
+        | some p => simp only [hp] at h; exact Within.step hw hp (ih p h)
+
+/-- Everything alive keeps its liveness and its parent, except possibly `e`. -/
+def KeepParents (e : Option WinTree.Id) (t t' : Tree) : Prop :=
+  ∀ (x : WinTree.Id) (w : Win), t.wins[x]? = some w → w.freed = false → some x ≠ e →
+    ∃ w', t'.wins[x]? = some w' ∧ w'.freed = false ∧ w'.parent = w.parent
+
+theorem Att.keep {t t' : Tree} (h : KeepParents none t t') {x : WinTree.Id} (ha : Att t x) : Att t' x := by
+  induction ha with
+  | root => exact Att.root
+  | step hw hf hp _ ih =>
+    obtain ⟨w', hw', hf', hp'⟩ := h _ _ hw hf (by simp)
+    exact Att.step hw' hf' (by rw [hp']; exact hp) ih
+
+/-- … when `e` is unlinked: whatever was not below `e` stays attached. -/
+theorem Att.keep_outside {t t' : Tree} {e : WinTree.Id} (h : KeepParents (some e) t t') {x : WinTree.Id} (ha : Att t x)
+    (hn : ¬ Within t e x) : Att t' x := by
+  induction ha with
+  | root => exact Att.root
+  | @step x p w hw hf hp _ ih =>
+    have hxe : x ≠ e := fun he => hn (he ▸ Within.self)
+    obtain ⟨w', hw', hf', hp'⟩ := h _ _ hw hf (by simpa using hxe)
+    exact Att.step hw' hf' (by rw [hp']; exact hp) (ih (fun hw2 => hn (Within.step hw hp hw2)))
+
+/-- … when `e`, which nobody has as parent, goes away. -/
+theorem Att.keep_leaf {t t' : Tree} {e : WinTree.Id} (h : KeepParents (some e) t t')
+    (hleaf : ∀ (x : WinTree.Id) (w : Win), t.wins[x]? = some w → w.freed = false → w.parent ≠ some e)
+    {x : WinTree.Id} (ha : Att t x) (hxe : x ≠ e) : Att t' x := by
+  induction ha with
+  | root => exact Att.root
+  | @step x p w hw hf hp _ ih =>
+    obtain ⟨w', hw', hf', hp'⟩ := h _ _ hw hf (by simpa using hxe)
+    have hpe : p ≠ e := fun he => hleaf x w hw hf (by rw [hp, he])
+    exact Att.step hw' hf' (by rw [hp']; exact hp) (ih hpe)
+
 /-- Consistency of the window store. -/
 structure TInv (t : Tree) : Prop where
   root : ∃ w0, t.wins[0]? = some w0 ∧ w0.freed = false ∧ w0.parent = none
@@ -94,7 +155,12 @@ structure TInv (t : Tree) : Prop where
   nodup : ∀ (i : WinTree.Id) (w : Win), t.wins[i]? = some w → w.freed = false → w.children.Nodup
   noself : ∀ (i : WinTree.Id) (w : Win), t.wins[i]? = some w → w.freed = false → w.parent ≠ some i
   closed : ∀ (i : WinTree.Id) (w : Win), t.wins[i]? = some w → w.freed = false → w.isClosed = true → w.parent = none
-  queue : t.root.changes = []
+  /-- parents were created before their children: no cycles, and chains are shorter than the store -/
+  lt : ∀ (c p : WinTree.Id) (cw : Win), t.wins[c]? = some cw → cw.freed = false → cw.parent = some p → p < c
+  /-- window 0 is the one root window -/
+  rootflag : ∀ (i : WinTree.Id) (w : Win), t.wins[i]? = some w → w.freed = false → (w.isRoot = true ↔ i = 0)
+  /-- a queued restack request names a live window, its parent, and the window still hangs below the root -/
+  queue : ∀ r ∈ t.root.changes, ∃ w, t.wins[r.win]? = some w ∧ w.freed = false ∧ w.parent = some r.parent ∧ Att t r.win
 
 /-- The root's drag source, if any, is a live window. -/
 def DragOK (t : Tree) : Prop := ∀ d, t.root.dragSource = some d → Alive t d
@@ -121,6 +187,12 @@ theorem Shape.alive {t t' : Tree} (h : Shape t t') {i : WinTree.Id} (ha : Alive 
   obtain ⟨w, hw, hf⟩ := ha
   obtain ⟨w', hw', e⟩ := h.some hw
   exact ⟨w', hw', by rw [(noRc_fields e).2.2.2.2.2.2.2.2]; exact hf⟩
+
+theorem Shape.keepParents {t t' : Tree} (h : Shape t t') : KeepParents none t t' := by
+  intro x w hw hf _
+  obtain ⟨w', hw', e⟩ := h.some hw
+  obtain ⟨e1, _, _, _, _, _, _, _, e9⟩ := noRc_fields e
+  exact ⟨w', hw', by rw [e9]; exact hf, e1⟩
 
 theorem TInv.shape {t t' : Tree} (hi : TInv t) (h : Shape t t') : TInv t' := by
   have hs := h.symm
@@ -163,7 +235,20 @@ theorem TInv.shape {t t' : Tree} (hi : TInv t) (h : Shape t t') : TInv t' := by
     obtain ⟨e1, _, _, _, _, _, e7, _, e9⟩ := noRc_fields e
     have := hi.closed i w hw (by rw [e9]; exact hf) (by rw [e7]; exact hcl)
     rw [← e1]; exact this
-  · rw [h.changes]; exact hi.queue
+  · intro c p cw' hcw' hf hp
+    obtain ⟨cw, hcw, e⟩ := hs.some hcw'
+    obtain ⟨e1, _, _, _, _, _, _, _, e9⟩ := noRc_fields e
+    exact hi.lt c p cw hcw (by rw [e9]; exact hf) (by rw [e1]; exact hp)
+  · intro i w' hw' hf
+    obtain ⟨w, hw, e⟩ := hs.some hw'
+    obtain ⟨_, _, _, _, e5, _, _, _, e9⟩ := noRc_fields e
+    rw [← e5]; exact hi.rootflag i w hw (by rw [e9]; exact hf)
+  · intro r hr
+    rw [h.changes] at hr
+    obtain ⟨w, hw, hf, hp, ha⟩ := hi.queue r hr
+    obtain ⟨w', hw', e⟩ := h.some hw
+    obtain ⟨e1, _, _, _, _, _, _, _, e9⟩ := noRc_fields e
+    exact ⟨w', hw', by rw [e9]; exact hf, by rw [e1]; exact hp, ha.keep h.keepParents⟩
 
 theorem DragOK.shape {t t' : Tree} (hd : DragOK t) (h : Shape t t') (hs : t'.root.dragSource = t.root.dragSource) :
     DragOK t' := by
@@ -269,8 +354,8 @@ theorem wins_set_cases {t : Tree} {i : WinTree.Id} {w w' : Win} (hw : t.wins[i]?
 /-- Changing a live window without touching its place in the tree keeps the store consistent. -/
 theorem TInv.set_fields {t : Tree} (hi : TInv t) {i : WinTree.Id} {w w' : Win} (hw : t.wins[i]? = some w)
     (hfr : w.freed = false) (hp : w'.parent = w.parent) (hc : w'.children = w.children) (hf' : w'.freed = false)
-    (hfo : ∀ f, w'.focusedChild = some f → f ∈ w'.children) (hcl : w'.isClosed = true → w'.parent = none) :
-    TInv (WinTree.set t i w') := by
+    (hfo : ∀ f, w'.focusedChild = some f → f ∈ w'.children) (hcl : w'.isClosed = true → w'.parent = none)
+    (hro : w'.isRoot = w.isRoot) : TInv (WinTree.set t i w') := by
   have hget : ∀ (j : WinTree.Id) (x : Win), t.wins[j]? = some x → x.freed = false →
       ∃ x', (WinTree.set t i w').wins[j]? = some x' ∧ x'.freed = false ∧ x'.parent = x.parent ∧ x'.children = x.children := by
     intro j x hx hxf
@@ -313,7 +398,20 @@ theorem TInv.set_fields {t : Tree} (hi : TInv t) {i : WinTree.Id} {w w' : Win} (
     rcases wins_set_cases hw j x' hx' with ⟨rfl, rfl⟩ | ⟨_, h⟩
     · exact hcl hcl'
     · exact hi.closed j x' h hxf hcl'
-  · exact hi.queue
+  · intro c p x' hx' hxf hpp
+    obtain ⟨x, hx, hxf0, hxp, _⟩ := hback c x' hx' hxf
+    exact hi.lt c p x hx hxf0 (by rw [← hxp]; exact hpp)
+  · intro j x' hx' hxf
+    rcases wins_set_cases hw j x' hx' with ⟨rfl, rfl⟩ | ⟨_, h⟩
+    · rw [hro]; exact hi.rootflag j w hw hfr
+    · exact hi.rootflag j x' h hxf
+  · intro r hr
+    obtain ⟨x, hx, hxf, hxp, ha⟩ := hi.queue r hr
+    obtain ⟨x', hx', hxf', hxp', _⟩ := hget r.win x hx hxf
+    refine ⟨x', hx', hxf', by rw [hxp']; exact hxp, ha.keep ?_⟩
+    intro y yw hy hyf _
+    obtain ⟨y', hy', hyf', hyp', _⟩ := hget y yw hy hyf
+    exact ⟨y', hy', hyf', hyp'⟩
 
 theorem alive_set {t : Tree} {i : WinTree.Id} {w w' : Win} (hw : t.wins[i]? = some w) (hf' : w'.freed = w.freed)
     {j : WinTree.Id} (ha : Alive t j) : Alive (WinTree.set t i w') j := by
@@ -356,8 +454,9 @@ theorem expose_step {t : Tree} (hi : TInv t) (hd : DragOK t) (f : Nat) (i : WinT
 theorem set_step {t : Tree} (hi : TInv t) (hd : DragOK t) {i : WinTree.Id} {w w' : Win} (hw : t.wins[i]? = some w)
     (hfr : w.freed = false) (hp : w'.parent = w.parent) (hc : w'.children = w.children) (hf' : w'.freed = false)
     (hr : w'.refcount = w.refcount) (hfo : ∀ f, w'.focusedChild = some f → f ∈ w'.children)
-    (hcl : w'.isClosed = true → w'.parent = none) : StepOK t (WinTree.set t i w') :=
-  ⟨hi.set_fields hw hfr hp hc hf' hfo hcl, hd.set hw (by rw [hf', hfr]),
+    (hcl : w'.isClosed = true → w'.parent = none) (hro : w'.isRoot = w.isRoot := by rfl) :
+    StepOK t (WinTree.set t i w') :=
+  ⟨hi.set_fields hw hfr hp hc hf' hfo hcl hro, hd.set hw (by rw [hf', hfr]),
    Evolve.set hw (by rw [hf', hfr]) hr (fun h => by rw [hc]; exact h)⟩
 
 theorem hide_safe {t : Tree} (hi : TInv t) (hd : DragOK t) (f : Nat) {win : WinTree.Id} (ha : Alive t win) :
@@ -425,14 +524,14 @@ theorem show_safe {t : Tree} (hi : TInv t) (hd : DragOK t) (f : Nat) {win : WinT
 /-- `tickit_window_set_steal_input` and the like: one flag of one live window. -/
 theorem modify_flag_safe {t : Tree} (hi : TInv t) (hd : DragOK t) {win : WinTree.Id} (ha : Alive t win) (g : Win → Win)
     (hg : ∀ w, (g w).parent = w.parent ∧ (g w).children = w.children ∧ (g w).focusedChild = w.focusedChild ∧
-      (g w).freed = w.freed ∧ (g w).refcount = w.refcount ∧ (g w).isClosed = w.isClosed) :
+      (g w).freed = w.freed ∧ (g w).refcount = w.refcount ∧ (g w).isClosed = w.isClosed ∧ (g w).isRoot = w.isRoot) :
     SafeR (WinTree.modify t win g) (StepOK t) := by
   obtain ⟨w, hw, hf⟩ := ha
   rw [modify_ok hw hf]
-  obtain ⟨g1, g2, g3, g4, g5, g6⟩ := hg w
+  obtain ⟨g1, g2, g3, g4, g5, g6, g7⟩ := hg w
   exact set_step hi hd hw hf g1 g2 (by rw [g4]; exact hf) g5
     (fun f h => by rw [g2]; rw [g3] at h; exact hi.focus win f w hw hf h)
-    (fun hc => by rw [g1]; rw [g6] at hc; exact hi.closed win w hw hf hc)
+    (fun hc => by rw [g1]; rw [g6] at hc; exact hi.closed win w hw hf hc) g7
 
 /-! ### close -/
 
@@ -452,18 +551,130 @@ theorem topOf_safe {t : Tree} (hi : TInv t) : ∀ (f : Nat) (i : WinTree.Id), Al
       obtain ⟨pw, hpw, hpf, _⟩ := hi.parent i p w hw hf hp
       exact ih p ⟨pw, hpw, hpf⟩
 
-/-- `_purge_hierarchy_changes` with nothing queued. -/
-theorem purge_safe {t : Tree} (hi : TInv t) (hd : DragOK t) (f : Nat) {win : WinTree.Id} (ha : Alive t win) :
-    SafeR (purgeHierarchyChanges t f win) (fun t' => StepOK t t' ∧ t'.wins = t.wins) := by
+/-- Same windows, fewer (or the same) queued requests. -/
+theorem TInv.queue_sub {t t' : Tree} (hi : TInv t) (hw : t'.wins = t.wins)
+    (hq : ∀ r ∈ t'.root.changes, r ∈ t.root.changes) : TInv t' := by
+  have e : ∀ (i : WinTree.Id), t'.wins[i]? = t.wins[i]? := fun i => by rw [hw]
+  have kp : KeepParents none t t' := fun x w hx hf _ => ⟨w, by rw [e]; exact hx, hf, rfl⟩
+  constructor
+  · obtain ⟨w0, h0, h1, h2⟩ := hi.root; exact ⟨w0, by rw [e]; exact h0, h1, h2⟩
+  · intro i c w h1 h2 h3
+    rw [e] at h1
+    obtain ⟨cw, a, b, c'⟩ := hi.child i c w h1 h2 h3
+    exact ⟨cw, by rw [e]; exact a, b, c'⟩
+  · intro c p cw h1 h2 h3
+    rw [e] at h1
+    obtain ⟨pw, a, b, c'⟩ := hi.parent c p cw h1 h2 h3
+    exact ⟨pw, by rw [e]; exact a, b, c'⟩
+  · intro i f w h1 h2 h3; rw [e] at h1; exact hi.focus i f w h1 h2 h3
+  · intro i w h1 h2; rw [e] at h1; exact hi.nodup i w h1 h2
+  · intro i w h1 h2; rw [e] at h1; exact hi.noself i w h1 h2
+  · intro i w h1 h2 h3; rw [e] at h1; exact hi.closed i w h1 h2 h3
+  · intro c p cw h1 h2 h3; rw [e] at h1; exact hi.lt c p cw h1 h2 h3
+  · intro i w h1 h2; rw [e] at h1; exact hi.rootflag i w h1 h2
+  · intro r hr
+    obtain ⟨w, a, b, c, d⟩ := hi.queue r (hq r hr)
+    exact ⟨w, by rw [e]; exact a, b, c, d.keep kp⟩
+
+/-- A window with no parent that hangs below the root is the root. -/
+theorem Att.top {t : Tree} {x : WinTree.Id} {w : Win} (ha : Att t x) (hw : t.wins[x]? = some w) (hp : w.parent = none) : x = 0 := by
+  cases ha with
+  | root => rfl
+  | step hw' _ hp' _ => rw [hw] at hw'; cases hw'; rw [hp] at hp'; cases hp'
+
+theorem Att.parent {t : Tree} {x p : WinTree.Id} {w : Win} (hi : TInv t) (ha : Att t x) (hw : t.wins[x]? = some w)
+    (hp : w.parent = some p) : Att t p := by
+  cases ha with
+  | root =>
+    obtain ⟨w0, h0, _, hp0⟩ := hi.root
+    rw [hw] at h0; cases h0; rw [hp] at hp0; cases hp0
+  | step hw' _ hp' ha' => rw [hw] at hw'; cases hw'; rw [hp] at hp'; cases hp'; exact ha'
+
+/-- What lies below `a` and hangs below the root: then so does `a`. -/
+theorem Att.of_within {t : Tree} (hi : TInv t) {a x : WinTree.Id} (hwi : Within t a x) (ha : Att t x) : Att t a := by
+  induction hwi with
+  | self => exact ha
+  | step hw hp _ ih => exact ih (ha.parent hi hw hp)
+
+theorem topOf_att {t : Tree} (hi : TInv t) : ∀ (f : Nat) (x top : WinTree.Id), topOf t f x = Res.ok top → Att t x → top = 0 := by
+  intro f
+  induction f with
+  | zero => intro x top h; simp [topOf] at h
+  | succ f ih =>
+    intro x top h ha
+    unfold topOf at h
+    obtain ⟨w, hg, h⟩ := res_bind_eq_ok.1 h
+    obtain ⟨hw, _⟩ := get_eq_ok.1 hg
+    cases hp : w.parent with
+    | none => simp only [hp, res_pure, Res.ok.injEq] at h; subst h; exact ha.top hw hp
+    | some p => simp only [hp] at h; exact ih p top h (ha.parent hi hw hp)
+
+theorem isWithin_complete {t : Tree} (hi : TInv t) {a : WinTree.Id} : ∀ {x : WinTree.Id}, Within t a x → ∀ (f : Nat),
+    Alive t x → x < f → isWithin t f a x = true := by
+  intro x hwi
+  induction hwi with
+  | self => intro f _ hlt; cases f with
+    | zero => cases hlt
+    | succ f => simp [isWithin]
+  | @step x p w hw hp _ ih =>
+    intro f hal hlt
+    cases f with
+    | zero => cases hlt
+    | succ f =>
+      unfold isWithin
+      by_cases hxa : x = a
+      · simp [hxa]
+      · obtain ⟨w2, hw2, hf2⟩ := hal
+        rw [hw] at hw2; cases hw2
+        simp only [hxa, if_false, hw, hp]
+        obtain ⟨pw, hpw, hpf, _⟩ := hi.parent x p w hw hf2 hp
+        have hlt' := hi.lt x p w hw hf2 hp
+        exact ih f ⟨pw, hpw, hpf⟩ (by omega)
+
+theorem chk_ok {t : Tree} : ∀ (l : List Req), (∀ r ∈ l, Alive t r.win) → purgeHierarchyChanges.chk t l = Res.ok () := by
+  intro l
+  induction l with
+  | nil => intro _; rfl
+  | cons r rest ih =>
+    intro h
+    obtain ⟨w, hg, _, _⟩ := (h r (List.mem_cons_self ..)).get
+    simp only [purgeHierarchyChanges.chk, hg, res_bind_ok]
+    exact ih (fun r' hr' => h r' (List.mem_cons_of_mem _ hr'))
+
+/-- `_purge_hierarchy_changes`: afterwards no queued request names `win` or a window below it. -/
+theorem purge_safe {t : Tree} (hi : TInv t) (hd : DragOK t) (f : Nat) (hfu : t.wins.size ≤ f) {win : WinTree.Id}
+    (ha : Alive t win) :
+    SafeR (purgeHierarchyChanges t f win) (fun t' => StepOK t t' ∧ t'.wins = t.wins ∧
+      ∀ r ∈ t'.root.changes, ¬ Within t win r.win) := by
   unfold purgeHierarchyChanges
-  apply SafeR.bind (topOf_safe hi f win ha)
-  intro top htop
-  obtain ⟨tw, hg, _, _⟩ := htop.get
-  simp only [hg, res_bind_ok]
-  split
-  · exact ⟨StepOK.refl hi hd, rfl⟩
-  · simp only [hi.queue, purgeHierarchyChanges.chk, List.filter_nil, res_pure, res_bind_ok]
-    refine ⟨⟨hi.root_frame rfl ?_ rfl, hd.root_frame rfl ?_ rfl, Evolve.of_wins rfl⟩, rfl⟩ <;> exact hi.queue.symm
+  have hsafe := topOf_safe hi f win ha
+  cases htop : topOf t f win with
+  | ub w => rw [htop] at hsafe; exact hsafe
+  | ok top =>
+    rw [htop] at hsafe
+    simp only [res_bind_ok]
+    obtain ⟨tw, hg, htw, htf⟩ := (hsafe : Alive t top).get
+    simp only [hg, res_bind_ok]
+    by_cases hr : tw.isRoot = true
+    · simp only [hr, Bool.not_true, Bool.false_eq_true, if_false]
+      rw [chk_ok _ (fun r hr' => by obtain ⟨w, a, b, _, _⟩ := hi.queue r hr'; exact ⟨w, a, b⟩)]
+      simp only [res_bind_ok, res_pure]
+      refine ⟨⟨hi.queue_sub rfl (fun r hr' => (List.mem_filter.1 hr').1), fun d hd' => hd d hd', Evolve.of_wins rfl⟩, rfl, ?_⟩
+      intro r hrq hwi
+      obtain ⟨hmem, hnot⟩ := List.mem_filter.1 hrq
+      obtain ⟨w, hw, hf, _, _⟩ := hi.queue r hmem
+      have hlt : r.win < f := Nat.lt_of_lt_of_le (Array.getElem?_eq_some_iff.1 hw).1 hfu
+      have := isWithin_complete hi hwi f ⟨w, hw, hf⟩ hlt
+      rw [this] at hnot; cases hnot
+    · have hr' : tw.isRoot = false := by simpa using hr
+      simp only [hr', Bool.not_false, if_true]
+      refine ⟨StepOK.refl hi hd, rfl, ?_⟩
+      intro r hrq hwi
+      obtain ⟨w, _, _, _, hatt⟩ := hi.queue r hrq
+      have := topOf_att hi f win top htop (Att.of_within hi hwi hatt)
+      subst this
+      have := (hi.rootflag 0 tw htw htf).2 rfl
+      rw [hr'] at this; cases this
 
 /-- The parent's record after `_do_hierarchy_remove` and the focus-pointer reset of REMOVE. -/
 def unlinkChild (pw : Win) (win : WinTree.Id) : Win :=
@@ -1061,7 +1272,7 @@ theorem doAction_safe {st : St} {held : List WinTree.Id} (h : AInv st held) {a :
       fun r hr => SafeR.bind hr fun t' s => ⟨h.step s, rfl⟩
     have flag : ∀ (g : Win → Win), (∀ w, (g w).parent = w.parent ∧ (g w).children = w.children ∧
         (g w).focusedChild = w.focusedChild ∧ (g w).freed = w.freed ∧ (g w).refcount = w.refcount ∧
-        (g w).isClosed = w.isClosed) →
+        (g w).isClosed = w.isClosed ∧ (g w).isRoot = w.isRoot) →
         SafeR (WinTree.modify st.tree a.win g >>= fun t => pure ({ st with tree := t } : St))
           (fun st' => AInv st' held ∧ st'.binds = st.binds) :=
       fun g hg => stepTo _ (modify_flag_safe h.tree h.drag hAl g hg)
@@ -1165,8 +1376,8 @@ theorem doAction_safe {st : St} {held : List WinTree.Id} (h : AInv st held) {a :
         · exact h.root
     · exact stepTo _ (hide_safe h.tree h.drag _ hAl)
     · exact stepTo _ (show_safe h.tree h.drag _ hAl)
-    · exact flag _ (fun w => ⟨rfl, rfl, rfl, rfl, rfl, rfl⟩)
-    · exact flag _ (fun w => ⟨rfl, rfl, rfl, rfl, rfl, rfl⟩)
+    · exact flag _ (fun w => ⟨rfl, rfl, rfl, rfl, rfl, rfl, rfl⟩)
+    · exact flag _ (fun w => ⟨rfl, rfl, rfl, rfl, rfl, rfl, rfl⟩)
   · simp only [hal, Bool.not_false, if_true]
     exact ⟨⟨h.tree, h.drag, h.size, h.rc, h.leaf, h.held, h.root, h.pos⟩, rfl⟩
 
